@@ -516,6 +516,26 @@ func init() {
 						}
 					}
 				}
+				if k == 1 {
+					// every hexadecimal digit character (both cases) in every position of an escape,
+					// alone and in both halves of a surrogate pair: the digit tables are hand-written
+					const hexd = "0123456789abcdefABCDEF"
+					for _, base := range []string{"0041", "00e9", "20ac", "fffd"} {
+						for pos := 0; pos < 4; pos++ {
+							for _, d := range hexd {
+								h := base[:pos] + string(d) + base[pos+1:]
+								lits = append(lits, `"x`+uesc(h)+`y"`)
+							}
+						}
+					}
+					for pos := 0; pos < 4; pos++ {
+						for _, d := range hexd {
+							hi := "d83d"[:pos] + string(d) + "d83d"[pos+1:]
+							lo := "de00"[:pos] + string(d) + "de00"[pos+1:]
+							lits = append(lits, `"`+uesc(hi)+uesc("de00")+`"`, `"`+uesc("d83d")+uesc(lo)+`"`, `"`+uesc(hi)+uesc(lo)+`z"`)
+						}
+					}
+				}
 				// longer literals so that escapes straddle the 8-byte window and the stream chunks
 				r := c.RNG(1)
 				for i := 0; i < 24; i++ {
